@@ -800,6 +800,12 @@ pub fn run_c29(ctx: &Ctx) {
                 t.class("config|valid-pair-roundtrip");
             }
         }
+        // --- layout-length arithmetic never wraps ---
+        {
+            let mut r2 = Rng::fork(ctx.seed, 900 + wi as u64);
+            crate::props::parsers::pi_len_sweep(&mut r2, t, 4000, "C29");
+            t.class("try_pi_len|sweep");
+        }
         // --- generated config documents ---
         let mut rng = Rng::fork(ctx.seed, 500 + wi as u64);
         for _ in 0..n_json.div_ceil(workers) {
